@@ -36,15 +36,15 @@ PROPS["C11"] = {
     "units": [{
         "pkg": "curve", "configs": ALL4,
         "tests": {
-            "TestC11Decode": T(6000, 500000),
+            "TestC11Decode": T(8000, 500000),
             "TestC11DecodeList": LIST(),
             "TestC11Lengths": LIST(),
             "TestC11AnyLen": T(2000, 100000),
-            "TestC11Coset": T(1500, 100000, shards={"quick": 6, "thorough": 16}),
+            "TestC11Coset": T(2000, 100000, shards={"quick": 8, "thorough": 16}),
             "TestC11CosetList": LIST(),
-            "TestC11Uniform": T(3000, 200000),
+            "TestC11Uniform": T(4000, 200000),
             "TestC11UniformList": LIST(),
-            "TestC11Ops": T(600, 40000, shards={"quick": 8, "thorough": 16}),
+            "TestC11Ops": T(800, 20000, shards={"quick": 8, "thorough": 16}),
             "TestC11ManyTerms": T(24, 1000, shards={"quick": 2, "thorough": 8}),
             "TestC11Constants": LIST(),
         },
